@@ -1,4 +1,5 @@
 // Back end K: the channel-level harness KIT (included from /repo/src/mutiny_stream.rs, so `MutinyStream`'s private fields are reachable).
+// @module mutiny_stream
 //
 // The obligations of DESIGN §4 that talk about a whole channel (C01 C02 C04 C06 C07 C08 C10 C16 C20 for Uni, C03 C04 C05 C10 for Multi)
 // are written ONCE here as generic functions over the crate's own channel traits; every channel file instantiates them on the REAL
